@@ -34,21 +34,32 @@ theorem EvsOk_cons {e : Ev} {l : List Ev} (he : EvOk e) (hl : EvsOk l) : EvsOk (
   · exact he
   · exact hl x h
 
-theorem decodeOne_ok (cfg : Cfg) (hnb : 1 ≤ cfg.nbSubfr) (n fi lb cc : Nat) (ch : Chan) (c : Dec)
-    (evs : List Ev) (ch' : Chan) (c' : Dec) (h : decodeOne cfg n fi lb cc ch c = (evs, ch', c')) : EvsOk evs := by
-  unfold decodeOne at h
-  generalize hix : decodeIndices cfg.rate cfg.nbSubfr (decide (lb ≠ 0 ∨ ch.vad.getD fi 0 ≠ 0)) cc
-    ch.ecPrevSignalType ch.ecPrevLagIndex c = y at h
+theorem decodeOneCore_ok (cfg : Cfg) (hnb : 1 ≤ cfg.nbSubfr) (n fi lb cc : Nat) (v : Bool) (ps : Nat) (pl : Int) (c : Dec)
+    (evs : List Ev) (ix : Indices) (c' : Dec) (h : decodeOneCore cfg n fi lb cc v ps pl c = (evs, ix, c')) : EvsOk evs := by
+  unfold decodeOneCore at h
+  generalize hix : decodeIndices cfg.rate cfg.nbSubfr v cc ps pl c = y at h
   split at h
-  rename_i _ ix c1
-  have hi := decodeIndices_ok cfg.rate cfg.nbSubfr hnb _ cc ch.ecPrevSignalType ch.ecPrevLagIndex c ix c1 hix
-  generalize hpu : decodePulses ix.signalType ix.quantOffsetType (frameLength cfg.rate cfg.nbSubfr) c1 = y at h
+  rename_i _ ix0 c1
+  have hi := decodeIndices_ok cfg.rate cfg.nbSubfr hnb v cc ps pl c ix0 c1 hix
+  generalize hpu : decodePulses ix0.signalType ix0.quantOffsetType (frameLength cfg.rate cfg.nbSubfr) c1 = y at h
   split at h
   rename_i _ pu c2
-  have hp := decodePulses_ok ix.signalType ix.quantOffsetType _ hi.sig c1 pu c2 hpu
+  have hp := decodePulses_ok ix0.signalType ix0.quantOffsetType _ hi.sig c1 pu c2 hpu
   simp only [Prod.mk.injEq] at h
   obtain ⟨rfl, _, _⟩ := h
   exact EvsOk_cons hi (EvsOk_cons hp EvsOk_nil)
+
+theorem decodeOne_ok (cfg : Cfg) (hnb : 1 ≤ cfg.nbSubfr) (n fi lb cc : Nat) (ch : Chan) (c : Dec)
+    (evs : List Ev) (ch' : Chan) (c' : Dec) (h : decodeOne cfg n fi lb cc ch c = (evs, ch', c')) : EvsOk evs := by
+  unfold decodeOne at h
+  generalize hy : decodeOneCore cfg n fi lb cc (decide (lb ≠ 0 ∨ ch.vad.getD fi 0 ≠ 0))
+    (if cc = 2 then ch.ecPrevSignalType else 0) (if cc = 2 ∧ ch.ecPrevSignalType = 2 then ch.ecPrevLagIndex else 0) c = y at h
+  split at h
+  rename_i _ evs0 ix c2
+  have := decodeOneCore_ok cfg hnb _ _ _ _ _ _ _ c evs0 ix c2 hy
+  simp only [Prod.mk.injEq] at h
+  obtain ⟨rfl, _, _⟩ := h
+  exact this
 
 theorem skipStereoG_ok (P : Dec → StereoPred × Dec) (M : Dec → Nat × Dec)
     (hP : ∀ c p c', P c = (p, c') → StereoOk p) (hM : ∀ c, (M c).1 ≤ 1)
